@@ -184,8 +184,8 @@ class SimilarityContainer(MetadataAware, typing.Sized):
         if len(header) < 2 or len(header[1]) < 2:
             return {}
         else:
-            # The 2nd line is the metadata line, and we strip off the first and the last char (# and \n)
-            return MetadataAware.metadata_from_str(header[1][1:-1])
+            # The 2nd line is the metadata line, and we strip off the first char and the line terminator (# and \n or \r\n)
+            return MetadataAware.metadata_from_str(header[1][1:].rstrip('\r\n'))
 
     def __len__(self) -> int:
         return sum([len(inner) for inner in self._data.values()])
